@@ -87,7 +87,7 @@ def floors(tier):
                 'args:spelling-pair': 120, 'args:model': 90,
                 'args:regen-compare': 80, 'distinct_nontrivial': 90}
     return {'path:extra-dep': 300, 'path:include': 1000,
-            'run:configure': 3000, 'run:regenerate': 1500, 'run:make': 400,
+            'run:configure': 3000, 'run:regenerate': 1500, 'run:make': 350,
             'probe:foreign': 100000, 'probe:own': 6000, 'probe:builtin': 6000,
             'submodule:return-checked': 3000, 'script:executions': 12000,
             'path:target-record': 2500, 'path:compdb-entry': 2500,
